@@ -347,8 +347,19 @@ def monitor_seq(case):
                     j = judge_content(dirc[op["to"]])
                     if j["panic"] and panic_seen is None:
                         panic_seen = j["panic"]
+        elif o == "tick" and op.get("skipped"):
+            continue
         elif o == "tick":
             m, wall = op["m"], op["wall"]
+            if op.get("hung"):
+                out.append({"op": i, "file": "", "what": "the tick of minute %d did not return within the watchdog's deadline: the daemon is "
+                            "blocked (entry reader / watcher lock never released) and schedules nothing any more" % m,
+                            "cls": {"class": "hung", "cause": "unexplained"}})
+                continue
+            for kind, f in op.get("late") or []:
+                out.append({"op": i, "file": f, "what": "the %s of %s due at minute %d was issued only after the Start of %s (a long run) had "
+                            "returned: the operations of one tick must not wait for each other" % (kind, f, m, ",".join(op.get("block") or [])),
+                            "cls": {"class": "late-call", "cause": "unexplained"}})
             calls = {}
             for kind, f in op["calls"]:
                 calls[(kind, f)] = calls.get((kind, f), 0) + 1
@@ -409,8 +420,9 @@ def monitor_seq(case):
                     out.append({"op": i, "file": f, "what": "%d restart call(s) for %s at minute %d; matching restart schedules: %d, "
                                 "suspended=%s" % (n_restart, f, m, nm, sus), "cls": cls})
             # the environment: what the calls do to the latest status (the harness client does the same)
-            started = {f for k, f in op["calls"] if k != "stop"}
-            for k, f in op["calls"]:
+            allcalls = list(op["calls"]) + [list(x) for x in (op.get("late") or [])]
+            started = {f for k, f in allcalls if k != "stop"}
+            for k, f in allcalls:
                 if k == "stop" and f not in started and hist.get(f, {}).get("kind") == "run":
                     hist[f] = {"kind": "done", "at": hist[f]["at"]}
             for f in started:
